@@ -365,7 +365,9 @@ impl Ord for Uri {
 
 impl Hash for Uri {
 	fn hash<H: hash::Hasher>(&self, state: &mut H) {
-		self.parts().hash(state)
+		// Hash as the reference view does: `Borrow<UriRef>` requires both views
+		// of one value to hash identically.
+		self.as_uri_ref().hash(state)
 	}
 }
 
